@@ -58,6 +58,17 @@ SIGS["D"] = {
 }
 
 
+SIGS["G"] = {
+    # a function over the record type its own instance exports as `t` (rendered in place: the parameter
+    # and result type is the type export that precedes it)
+    "wat": None,
+    "scoped": True,
+    "core": "(param i32) (result i32)",
+    "body": "local.get 0",
+    "desc": "(q:record{f:u32})->record{f:u32}",
+}
+
+
 def func(sig):
     return ("func", sig)
 
@@ -115,12 +126,16 @@ def wat_type(k):
         return SIGS[k[1]]["wat"]
     if k[0] == "inst":
         parts = []
+        last = None
         for n, v in k[1].items():
             if v[0] == "rtype":
                 # a type export of an instance type: declare the type, export it by equality
                 _tcount[0] += 1
                 t = f"$rt{_tcount[0]}"
-                parts.append(f'(type {t} {RTYPES[v[1]]["wat"]}) (export "{n}" (type (eq {t})))')
+                last = f"$et{_tcount[0]}"
+                parts.append(f'(type {t} {RTYPES[v[1]]["wat"]}) (export "{n}" (type {last} (eq {t})))')
+            elif v[0] == "func" and SIGS[v[1]].get("scoped"):
+                parts.append(f'(export "{n}" (func (param "q" {last}) (result {last})))')
             else:
                 parts.append(f'(export "{n}" {wat_type(v)})')
         return f"(instance {' '.join(parts)})"
@@ -133,6 +148,12 @@ def wat_import(n, k):
         _tcount[0] += 1
         t = f"$rt{_tcount[0]}"
         return f'(type {t} {RTYPES[k[1]]["wat"]}) (import "{n}" (type (eq {t})))'
+    if k[0] == "func" and SIGS[k[1]].get("scoped"):
+        # at the top level the record type is a type import of its own
+        _tcount[0] += 1
+        t, e = f"$rt{_tcount[0]}", f"$et{_tcount[0]}"
+        return (f'(type {t} {RTYPES["R"]["wat"]}) (import "t-{n}" (type {e} (eq {t}))) '
+                f'(import "{n}" (func (param "q" {e}) (result {e})))')
     return f'(import "{n}" {wat_type(k)})'
 
 
@@ -180,8 +201,18 @@ class WatBuilder:
             return ("func", f)
         if k[0] == "inst":
             parts = []
+            last_type = None
             for n, v in k[1].items():
+                if v[0] == "func" and SIGS[v[1]].get("scoped"):
+                    # lifted over the record type defined for the preceding type export
+                    self.ensure_core()
+                    f = self.fresh("f")
+                    self.lines.append(f'(func {f} (param "q" {last_type}) (result {last_type}) (canon lift (core func $ci "{v[1]}")))')
+                    parts.append(f'(export "{n}" (func {f}))')
+                    continue
                 sort, ident = self.define(v)
+                if sort == "type":
+                    last_type = ident
                 parts.append(f'(export "{n}" ({sort} {ident}))')
             i = self.fresh("i")
             self.lines.append(f"(instance {i} {' '.join(parts)})")
@@ -315,6 +346,25 @@ def lib_shape():
         "export_names": ["e1", "e2"],
         "def_names": [],
         "valid_names": ["k", "r", "e1", "e2"],
+        "deftypes": {},
+    }
+
+
+def lib_scoped():
+    """a function whose signature mentions a type that is exported next to it: aliased out of its
+    instance and exported / imported on its own, the type it mentions is no longer in scope"""
+    fG = func("G")
+    In = ("inst", {"t": ("rtype", "R"), "g": fG})
+    return {
+        "name": "scoped",
+        "pkgs": {
+            "pg": {"name": "test:g", "version": None, "imports": [], "exports": [("n", In), ("x", fA)]},
+        },
+        "kinds": {"fG": fG, "fA": fA},
+        "import_names": ["k"],
+        "export_names": ["e1", "e2"],
+        "def_names": [],
+        "valid_names": ["k", "e1", "e2"],
         "deftypes": {},
     }
 
@@ -484,7 +534,7 @@ def lib_wac():
     }
 
 
-LIBS = {"core": lib_core, "ver": lib_ver, "shape": lib_shape, "plug": lib_plug, "det": lib_det, "wac": lib_wac, "dup": lib_dup, "ver2": lib_ver2, "extern": lib_extern}
+LIBS = {"core": lib_core, "ver": lib_ver, "shape": lib_shape, "plug": lib_plug, "det": lib_det, "wac": lib_wac, "dup": lib_dup, "ver2": lib_ver2, "extern": lib_extern, "scoped": lib_scoped}
 
 
 def emit(lib):
